@@ -24,13 +24,14 @@ TraceSkip == SkipStep /\ UNCHANGED vars
    no other process touches meanwhile (exclusive use is a precondition of the two call actions, so a script that
    breaks it is not explained). With exclusive use linearizability leaves no choice: the i-th read returns ds[i]. *)
 Busy(k, p) == \E q \in DOMAIN pend : q # p /\ pend[q].st # "idle" /\ pend[q].k = k
-BurstOn(k, p) == \E q \in DOMAIN pend : q # p /\ pend[q].st # "idle" /\ pend[q].k = k /\ pend[q].op = "burst"
+Excl == {"burst", "delrace"}
+BurstOn(k, p) == \E q \in DOMAIN pend : q # p /\ pend[q].st # "idle" /\ pend[q].k = k /\ pend[q].op \in Excl
 TCall ==
   /\ IsEvent("call") /\ Strict
   /\ pend[Ev.p].st = "idle"
-  /\ IF Ev.op = "burst" THEN ~Busy(Ev.k, Ev.p) /\ Len(Ev.ds) > 0 ELSE ~BurstOn(Ev.k, Ev.p)
+  /\ IF Ev.op \in Excl THEN ~Busy(Ev.k, Ev.p) /\ Len(Ev.ds) > 0 ELSE ~BurstOn(Ev.k, Ev.p)
   /\ pend' = [pend EXCEPT ![Ev.p] = [st |-> "called", op |-> Ev.op, k |-> Ev.k, c |-> Ev.c, d |-> Ev.d, m |-> Ev.m,
-                                      ds |-> IF Ev.op = "burst" THEN Ev.ds ELSE <<>>]]
+                                      ds |-> IF Ev.op \in Excl THEN Ev.ds ELSE <<>>]]
   /\ UNCHANGED live
 
 (* silent: the operation of process p takes effect *)
@@ -59,6 +60,12 @@ Lin(p) ==
      \/ /\ o.op = "burst"
         /\ WriteStrict(live, FALSE, o.k, o.c, o.ds[Len(o.ds)], o.m, "ok", live')
         /\ pend' = [pend EXCEPT ![p] = [st |-> "done", op |-> "burst", k |-> o.k, ds |-> o.ds]]
+     \* "delrace": for each ds[i] the process writes ds[i] to its key and then lets several Store-level deletes of
+     \* that key run at the same time (no one else uses the key): they linearize in some order, so exactly ONE of
+     \* them finds the blob and reports that it removed it; obs[i] = how many reported a removal
+     \/ /\ o.op = "delrace"
+        /\ live' = [live EXCEPT ![o.k] = None]
+        /\ pend' = [pend EXCEPT ![p] = [st |-> "done", op |-> "delrace", k |-> o.k, ds |-> o.ds]]
 
 TRet ==
   /\ IsEvent("ret") /\ Strict
@@ -66,6 +73,7 @@ TRet ==
   /\ LET o == pend[Ev.p] IN
        IF o.op = "read" THEN ReadObsStrict(o.snap, o.k, o.c, Ev)
        ELSE IF o.op = "burst" THEN Ev.res = "ok" /\ Ev.obs = o.ds
+       ELSE IF o.op = "delrace" THEN Ev.res = "ok" /\ Len(Ev.obs) = Len(o.ds) /\ \A i \in 1..Len(Ev.obs) : Ev.obs[i] = 1
        ELSE Ev.res = o.res
   /\ pend' = [pend EXCEPT ![Ev.p] = Idle]
   /\ UNCHANGED live
